@@ -112,6 +112,10 @@ def one_run(ctx, launch, uros, msgs, rng, k):
     # the configured magnitudes are configuration too (gravity is shared by simulator and estimator)
     if flipped and rng.random() < 0.5:
         P["mrp/dt_min_accel"], P["mrp/dt_min_mag"] = 1 / 50, 1 / 15
+    sparse_corr = (not flipped) and rng.random() < 0.12
+    if sparse_corr:
+        # sparse corrections (0.5 s / 1 s): between them the estimate rides on its own integration of the gyro alone
+        P["mrp/dt_min_accel"], P["mrp/dt_min_mag"] = float(rng.choice([0.25, 0.5])), float(rng.choice([0.5, 1.0]))
     gval = float(rng.choice([9.8, 9.8, 9.81, 9.6, 10.1]))
     P["sim/g"] = gval
     P["mrp/g"] = gval
@@ -125,6 +129,11 @@ def one_run(ctx, launch, uros, msgs, rng, k):
     # the initial state in the other forms a caller may legitimately use: the packaged default (x0 omitted: a list of Python
     # ints) and a list of ints with a non-zero entry -- integer-valued, not integer-typed: the truth must still move
     x0_form = "float_array"
+    if k == 0 and ctx.shard % 8 == 6:
+        # parameter values written as Python ints (the library's own defaults are: `add_param("mag_decl", 0, "f8")`)
+        decl = 0.0
+        P["sim/mag_decl"], P["mrp/mag_decl"] = 0, 0
+        ctx.count("runs_with_int_parameter_values")
     if k == 0 and ctx.shard % 8 == 5:
         x0_form = "default" if ctx.shard % 16 == 5 else "int_list"
         if x0_form == "default":
